@@ -708,6 +708,7 @@ pub static PS_CLEAN: PubSubFamily = PubSubFamily { name: "pubsub-clean", flags: 
 pub static PS_WAKE: PubSubFamily = PubSubFamily { name: "pubsub-wake", flags: GenFlags { fails: false, two_fails: false, stream_errs: true, close: false, force_wake: Some(true), partial: false } };
 pub static PS_PARTIAL: PubSubFamily = PubSubFamily { name: "pubsub-partial-topology", flags: GenFlags { fails: false, two_fails: false, stream_errs: true, close: false, force_wake: Some(true), partial: true } };
 pub static PS_SHUTDOWN: PubSubFamily = PubSubFamily { name: "pubsub-shutdown", flags: GenFlags { fails: false, two_fails: false, stream_errs: false, close: true, force_wake: None, partial: false } };
+pub static PS_SHUTDOWN_FAIL: PubSubFamily = PubSubFamily { name: "pubsub-shutdown-with-failures", flags: GenFlags { fails: true, two_fails: true, stream_errs: true, close: true, force_wake: None, partial: false } };
 pub static PS_FAIL_RANDOM: PubSubFamily = PubSubFamily { name: "pubsub-fail-random", flags: GenFlags { fails: true, two_fails: true, stream_errs: true, close: false, force_wake: None, partial: false } };
 
 impl Family for PubSubFamily {
